@@ -3302,7 +3302,14 @@ impl Server {
             _ => return Ok(RespFrame::error("ERR invalid decrement format")),
         };
         
-        match self.storage.incr_by(db, key, -decrement) {
+        // -i64::MIN does not exist: the decrement would overflow (and the negation itself panics
+        // in a build with overflow checks)
+        let increment = match decrement.checked_neg() {
+            Some(n) => n,
+            None => return Ok(RespFrame::error("ERR decrement would overflow")),
+        };
+        
+        match self.storage.incr_by(db, key, increment) {
             Ok(new_value) => Ok(RespFrame::Integer(new_value)),
             Err(e) => Ok(RespFrame::error(e.to_string())),
         }
